@@ -407,6 +407,59 @@ impl IterPrograms {
                 }
             }
         }
+        if self.which.contains(&It::Sorted) && !unordered && self.extra_len > 1 {
+            // nth / nth_back on the sorted iterator: the (k+1)-th smallest (largest) remaining
+            // priority, k+1 elements consumed (all of them and None when k >= remaining), and a
+            // fused iterator stays exhausted afterwards
+            let back = Q::q_new().q_into_sorted_iter().nb().is_some();
+            let mut asc: Vec<i32> = m.values().map(|v| v.1).collect();
+            asc.sort();
+            if !Q::DOUBLE {
+                asc.reverse(); // PriorityQueue's sorted iterator goes from the highest priority down
+            }
+            for pre in 0..=1usize {
+                for k in 0..=(n + 1) {
+                    for from_back in [false, true] {
+                        if from_back && !back {
+                            continue;
+                        }
+                        cases += 1;
+                        let mut it = q.clone().q_into_sorted_iter();
+                        let mut rest: Vec<i32> = asc.clone();
+                        if pre == 1 {
+                            if let Some((_, p)) = it.nx() {
+                                if rest.is_empty() || p.v != rest[0] {
+                                    return Err(format!("into_sorted_iter(): next() yields priority {} first, expected {:?}", p.v, rest.first()));
+                                }
+                                rest.remove(0);
+                            }
+                        }
+                        let r = if from_back { it.nth_back(k).flatten() } else { it.nth(k) };
+                        let expect = if k < rest.len() { Some(if from_back { rest[rest.len() - 1 - k] } else { rest[k] }) } else { None };
+                        let got = r.map(|(_, p)| p.v);
+                        if got != expect {
+                            return Err(format!("into_sorted_iter(): {}({k}) after {pre} next() yields priority {got:?}, expected {expect:?} (remaining priorities {rest:?})", if from_back { "nth_back" } else { "nth" }));
+                        }
+                        let left = rest.len().saturating_sub(k + 1);
+                        if let Some(l) = it.xlen() {
+                            if l != left {
+                                return Err(format!("into_sorted_iter(): len() = {l} after {}({k}) on {} remaining elements, expected {left}", if from_back { "nth_back" } else { "nth" }, rest.len()));
+                            }
+                        }
+                        let mut cnt = 0;
+                        while it.nx().is_some() {
+                            cnt += 1;
+                            if cnt > n + 2 {
+                                break;
+                            }
+                        }
+                        if cnt != left {
+                            return Err(format!("into_sorted_iter(): after {}({k}) on {} remaining elements {cnt} more elements are yielded, expected {left}", if from_back { "nth_back" } else { "nth" }, rest.len()));
+                        }
+                    }
+                }
+            }
+        }
         if self.sorted_vecs && !unordered {
             cases += 1;
             let key_prio = |v: Vec<Item>| -> Result<Vec<i32>, String> {
@@ -685,6 +738,12 @@ impl EmptiedLikeFresh {
         }
         ops.push(Op::Clear);
         ops.push(Op::Drain { front: 1, back: 0, end: End::Drop });
+        // refill through extend (both hint styles), with an item named twice
+        let (k0, p0, p1) = (self.universe[0], self.prios[0], *self.prios.last().unwrap());
+        for h in [Hint { lo: 2, hi: Some(2) }, Hint { lo: 0, hi: None }] {
+            ops.push(Op::Extend(vec![(k0, 0, p0), (k0, 0, p1)], h));
+        }
+        ops.push(Op::Extend(self.universe.iter().map(|&k| (k, 0, p1)).collect(), Hint { lo: 0, hi: Some(self.universe.len()) }));
         let mut cases = 0;
         for o1 in &ops {
             for o2 in &ops {
